@@ -2,7 +2,7 @@
    The theorems quantify over EVERY history of operations (send, explicit authenticate with good / bad / cached
    credentials, device-level wrappers, clock jumps, lifetime changes) of ANY length and over EVERY environment script
    (connect refused / hanging, peer silent, error packets, bad handshake replies, peer close, arbitrary delays). *)
-From MS Require Import lib.Base gen.GenLan model.Session proofs.SessionProofs.
+From MS Require Import lib.Base gen.GenLan model.Session proofs.SessionProofs proofs.SessionLife.
 Local Open Scope N_scope.
 
 (* the invariant holds in every reachable state *)
@@ -50,6 +50,30 @@ Theorem C07_handshake_replies_not_correlated :
       EvConnect 1 true; EvHs 1 0 true; EvAuthOk 1 3; EvData 1 1 3 20]).
 Proof. vm_compute. reflexivity. Qed.
 Print Assumptions C07_handshake_replies_not_correlated.
+
+(* the configured connection lifetime counts from the moment the connection was made: over ANY history, as long as no new
+   connection is made the connection's expiry time does not move - a re-handshake (explicit or forced by the 12 h key expiry),
+   exchanges, failures, waiting or changing the configured lifetime never extend the life of the connection that exists *)
+Theorem C07_lifetime_counted_from_connect : forall os w,
+  (w_ncid w <= w_ncid (snd (run_ops os w)))%nat /\
+  (w_ncid (snd (run_ops os w)) = w_ncid w -> l_cexp (w_lan (snd (run_ops os w))) = l_cexp (w_lan w)).
+Proof. exact lifetime_counted_from_connect. Qed.
+Print Assumptions C07_lifetime_counted_from_connect.
+
+(* ... and a successful connect is what sets it: to the time of the connect plus the lifetime configured then *)
+Theorem C07_connect_sets_expiry : forall w w', lan_connect w = (Ok tt, w') ->
+  w_ncid w' = S (w_ncid w) /\ w_now w' = w_now w /\
+  l_cexp (w_lan w') = match l_maxlife (w_lan w) with Some m => Some (w_now w + m) | None => l_cexp (w_lan w) end.
+Proof. exact connect_sets_expiry. Qed.
+Print Assumptions C07_connect_sets_expiry.
+
+(* a 10 s lifetime, a second handshake 7 s after the connect, an exchange 13 s after the connect: it goes on a new connection *)
+Example C07_rehandshake_does_not_extend_lifetime :
+  w_log (snd (run_ops [OSetLife (Some 10000); OAuth (Some true) 3; OTick 6000; OAuth (Some true) 3; OTick 5000; OSend 9 3]
+                      (world_init [] [[(0, RHsOk)]; [(0, RHsOk)]; [(0, RHsOk)]] [[(0, RFrame 1)]])))
+  = [EvConnect 0 true; EvHs 0 0 true; EvAuthOk 0 1; EvHs 0 1 true; EvAuthOk 0 2; EvClose 0; EvConnect 1 true;
+     EvHs 1 0 true; EvAuthOk 1 3; EvData 1 1 3 9].
+Proof. vm_compute. reflexivity. Qed.
 
 Example C07_nonvacuous :
   let w := snd (run_ops [OAuth (Some true) 3; OSend 7 3; OTick 50000000; OSend 8 3]
